@@ -1,11 +1,26 @@
 #!/bin/bash
-# Runs every seeded change against the check of the property it breaks (and the extra ones in also_breaks).
+# Runs every seeded change against the check of the property it breaks (and the extra ones in also_breaks);
+# records the entries that reported it in seeded/<name>/meta.json (detected_by) and in seeded/SWEEP.log.
 cd /verif
-for d in seeded/*/; do
+: > seeded/SWEEP.log
+for d in ${@:-seeded/*/}; do
   n=$(basename $d)
-  props=$(python3 -c "import json;m=json.load(open('$d/meta.json'));print(' '.join([m['property']]+m.get('also_breaks',[])))" 2>/dev/null || echo ${n%%-*})
+  props=$(python3 -c "import json;m=json.load(open('seeded/$n/meta.json'));print(' '.join([m['property']]+m.get('also_breaks',[])))" 2>/dev/null || echo ${n%%-*})
   for p in $props; do
-    out=$(timeout 1100 bin/seedtest.sh $n $p 2>&1 | grep -a "seedtest\|patch does not" | tail -1)
-    echo "$n -> $p: $out"
+    out=$(timeout 1100 bin/seedtest.sh $n $p 2>&1)
+    last=$(echo "$out" | grep -a "seedtest\|patch does not" | tail -1)
+    ents=$(echo "$out" | grep -a -o "entry=[A-Za-z0-9_]*" | sort -u | sed 's/entry=//' | tr '\n' ' ')
+    echo "$n -> $p: $last entries: $ents" | tee -a seeded/SWEEP.log
+    python3 - "$n" "$p" "$last" "$ents" <<'PY'
+import json,sys
+n,p,last,ents=sys.argv[1:5]
+f=f'/verif/seeded/{n}/meta.json'
+m=json.load(open(f))
+db=m.get('detected_by',{})
+if not isinstance(db,dict): db={}
+db[p]={"exit":last.split('exit=')[-1] if 'exit=' in last else last,"entries":ents.split()}
+m['detected_by']=db
+json.dump(m,open(f,'w'),indent=1)
+PY
   done
 done
